@@ -66,15 +66,16 @@ Print Assumptions C03_rtu_size_oracle_stable.
 
 (* a whole valid frame handed to a fresh receiver is delivered exactly once, unit id kept,
    nothing left in the buffer: every unit id, every class whose size oracle is right for
-   this frame ([valid_frame]: PDU accepted by the decoder, unit accepted by the filter) *)
-Theorem C03_whole_frame_rtu : forall cfg u pdu, valid_frame cfg u pdu ->
+   this frame ([valid_frame _ true]: PDU accepted by the decoder, unit accepted by the filter) *)
+Theorem C03_whole_frame_rtu : forall cfg u pdu, valid_frame cfg true u pdu ->
   rtu_recv cfg rtu_init (spec_adu_rtu u pdu) = ({| r_buf := []; r_hdr := hdr_empty |}, [(pdu, Z.of_N u)], FOk).
 Proof. exact rtu_whole_frame. Qed.
 Print Assumptions C03_whole_frame_rtu.
 
 Example C03_nonvacuous :
   let cfg := {| cf_dec := fun _ => DMsg; cf_rules := server_decoder; cf_units := [1%Z]; cf_single := false |} in
-  valid_frame cfg 1 [3; 0; 1; 0; 2] /\ valid_frame cfg 1 [16; 0; 1; 0; 1; 2; 123; 125].
+  valid_frame cfg true 1 [3; 0; 1; 0; 2] /\ valid_frame cfg true 1 [16; 0; 1; 0; 1; 2; 123; 125] /\
+  valid_frame cfg false 9 [3; 0; 1; 0; 2].
 Proof. exact valid_frame_example. Qed.
 
 (* ---- the full statement for one framing, kept visible *)
